@@ -34,7 +34,7 @@ func renderAnnotations(err error) (string, error) {
 		return "", err
 	}
 	var out bytes.Buffer
-	for _, format := range []string{"text", "json"} {
+	for _, format := range bufanalysis.AllFormatStrings {
 		out.WriteString("--- " + format + "\n")
 		if err := bufanalysis.PrintFileAnnotationSet(&out, set, format); err != nil {
 			return "", err
